@@ -182,7 +182,7 @@ CLAIMED["C11"] = (
     "AllSucceeded(). Hence failing results are never stored for reuse. The runtime rule hash includes the TEST command for tests, and a "
     "filegroup output's recorded hash follows its source (shared with C08/C01). Kernel-only: RuntimeHash's file hashing and equality of "
     "incremental and fresh outcomes are not under contract.",
-    COMMON_NOTE + "verifyHash, target.State(), PathExists are assumed functions of their arguments; retrieveFromCache, moveOutputFile, Cache.Store are "
+    COMMON_NOTE + "verifyHash is verified to be EQUALITY of the given hash and the file's recorded tag; target.State(), PathExists are assumed functions of their arguments; retrieveFromCache, moveOutputFile, Cache.Store are "
     "opaque; deep callees of test() whose bodies leave the supported subset (select, os/exec) are treated as opaque calls.",
     "contract-based deductive verification (function-literal contracts, call-site obligations + SMT)", "6/C11")
 
@@ -304,8 +304,12 @@ CLAIMED["C08"] = (
     "command, the file content, and (through hashMap, proved to write every key=value entry of its argument) the entry points and the env. "
     "NOT proved, and false: that different attribute values always give different streams — writes are concatenated without separators or field "
     "tags, so Labels [ab c] / [a bc], or the string x as a label vs as a secret, collide; demonstrated against the real code "
-    "(findings/C08) and recorded as a known finding that no obligation here can express. Bool attributes, named outputs, provides, licences, "
-    "visibility and the runtime-only fields are not under contract.",
+    "(findings/C08) and recorded as a known finding that no obligation here can express. Also covered: every licence, every named output "
+    "(name and files), every provides language and label (the sorted key list still holds every key: one-directional permutation axiom), "
+    "the runtime-only data, test outputs, test sandbox flag and args placeholder, and every boolean attribute (sets of the values handed to "
+    "hashBool / hashOptionalBool: for all inputs, so a dropped call is refuted by the input where only that flag is set); every loop writes "
+    "exactly one string per element (ghost write counter), so an element skipped because its value was already written is caught. "
+    "Visibility is not hashed by design.",
     COMMON_NOTE + "hash.Hash.Write is opaque; what is tracked is the set of byte strings passed to it (string([]byte(s)) == s is an axiom of "
     "the conversion model); accessors of the target are assumed pure; os.Getenv is a function of its argument.",
     "contract-based deductive verification (monotone ghost set of hashed strings, loop invariants, map-iteration invariant + SMT)", "6/C08")
